@@ -273,6 +273,8 @@ def static_record(rid, req, resp, with_pos=True):
         # a refused rewrite of a parsable input: the design model has to predict the refusal
         eff = resp["effective_config"]
         rec["refused"] = True
+        rec["has_events"] = "events" in resp
+        rec["events"] = [{"ev": e["ev"], "a": int(e["a"]), "b": int(e["b"]), "s": e["s"]} for e in resp.get("events", [])]
         rec["cfg"] = cfg_for_spec(eff)
         rec["in"] = norm.encode(norm.normalise(resp["in_ast"], "__datadog_%s_" % eff["localVarPrefix"], None))
     if rec["outcome"] != "ok":
@@ -312,6 +314,9 @@ def static_record(rid, req, resp, with_pos=True):
         "debug": [{"tag": k, "n": int(v)} for k, v in sorted((dbg or {}).items())],
         "in_mentions_ns": "_ddiast" in code,
         "raw": raw_for_spec(req.get("config")),
+        # the traversal events recorded by the cfg-guarded hooks (one per critical section of the visitor)
+        "has_events": "events" in resp,
+        "events": [{"ev": e["ev"], "a": int(e["a"]), "b": int(e["b"]), "s": e["s"]} for e in resp.get("events", [])],
         "prefix_six_lower": bool(re.fullmatch(r"[a-z]{6}", eff["localVarPrefix"])),
         # C14: the literal report, flattened to one entry per reported location
         "has_literals": resp.get("literals") is not None,
